@@ -5,18 +5,18 @@
  "enforce": ["aws_sign"],
  "replace": [],
  "annotate": ["aws/aws_sign.c"],
- "defines": ["VERIF_HALLOC", "AWS_OUTMAX=160", "C19_SMAX=2", "C19_N0=0", "C19_CREQMAX=6", "VERIF_STRMAX=160", "AWS_MMAX=160", "SV4_MAX=160", "AWS_FMTMAX=160"],
- "thorough_defines": ["C19_SMAX=3"],
+ "defines": ["VERIF_HALLOC", "C19_SMAX=8", "C19_CREQMAX=8", "VERIF_STRMAX=160", "AWS_MMAX=160", "AWS_OUTMAX=160", "AWS_FMTMAX=64", "AWS_KMAX=40"],
+ "thorough_defines": ["C19_SMAX=16", "C19_CREQMAX=16", "VERIF_STRMAX=200", "AWS_MMAX=200", "AWS_OUTMAX=200"],
  "models": ["models/libc_string.c", "models/aws_hash.c", "models/aws_fmt.c", "models/aws_time.c"],
  "instrument_flags": ["--nondet-static-exclude", "hexchars"],
  "cbmc": ["--malloc-may-fail", "--malloc-fail-null"],
  "loop_contracts": false,
- "unwind": 162, "bounded": true,
- "bound": "secret, region, service <= 2 characters (thorough: 3), date <= 8, datetime <= 16, canonical request <= 6 characters; all loops (libc string scans, vsnprintf model, hash-log copies, hexify) fully unwound, unwinding assertions on",
+ "bounded": true,
+ "bound": "secret, region, service, canonical request: every string of <= 8 characters (thorough: 16), date <= 8, datetime <= 16 characters, all byte values; formatted strings compared in normal form (models/aws_stream.h), not as rendered bytes; every loop has a compile-time-constant bound and is fully unwound (unwinding assertions on)",
  "timeout": 600,
  "assumptions": ["SHA256_Buf/HMAC_SHA256_Buf are abstract logging leaves (models/aws_hash.c, G2): their conformance is C01's",
-                 "vsnprintf is modelled for %s %d %% (models/aws_fmt.c); util/asprintf.c and util/hexify.c are the real code",
-                 "the byte-for-byte comparison with spec/sigv4_spec.h is a set of harness-level obligations after the call"]
+                 "asprintf is modelled (models/aws_fmt.c): records what is to be printed for %s %d %% in normal form, result bytes abstract; util/asprintf.c itself is not part of the proof (DFCC cannot instrument variadic functions); util/hexify.c is the real code",
+                 "the comparison with spec/sigv4_spec.h is a set of harness-level obligations after the call (lockstep, harness/C19/c19.h)"]
 }
 */
 #include "c19.h"
@@ -32,28 +32,35 @@ h_sign_chain(void)
 	C19_INSTR(creq, C19_CREQMAX);
 	char sigbuf[65];
 	char spec_sig[65];
-	struct sv4_str C;
-	size_t n0 = C19_N0;
+	sv4_str s_secret, s_date, s_datetime, s_region, s_service, s_creq;
 	int rc;
 
 	C19_MODELS_RESET();
-	__CPROVER_assume(n0 <= AWS_LOG_N - 6);
-	g_aws_n = n0;
-	g_c19.l_secret = l_secret;
-	g_c19.l_date = l_date;
-	g_c19.l_datetime = l_datetime;
-	g_c19.l_region = l_region;
-	g_c19.l_svc = l_service;
-	g_c19.l_creq = l_creq;
+	C19_REG(C19_ID_SECRET, secret);
+	C19_REG(C19_ID_DATE, date);
+	C19_REG(C19_ID_DATETIME, datetime);
+	C19_REG(C19_ID_REGION, region);
+	C19_REG(C19_ID_SVC, service);
+	C19_REG(C19_ID_CREQ, creq);
+	g_c19.l_secret = C19_SMAX;
+	g_c19.l_date = 8;
+	g_c19.l_datetime = 16;
+	g_c19.l_region = C19_SMAX;
+	g_c19.l_svc = C19_SMAX;
+	g_c19.l_creq = C19_CREQMAX;
 
 	rc = aws_sign(secret, date, datetime, region, service, creq, sigbuf);
 
 	if (rc == 0) {
 		/* the specification, run in lockstep against the logged trace */
-		sv4_init(&C);
-		sv4_cstr(&C, creq);
-		C19_SPEC_BEGIN(n0);
-		sv4_signature(secret, date, datetime, region, service, &C, spec_sig);
+		sv4_init(&s_secret); sv4_in(&s_secret, secret);
+		sv4_init(&s_date); sv4_in(&s_date, date);
+		sv4_init(&s_datetime); sv4_in(&s_datetime, datetime);
+		sv4_init(&s_region); sv4_in(&s_region, region);
+		sv4_init(&s_service); sv4_in(&s_service, service);
+		sv4_init(&s_creq); sv4_in(&s_creq, creq);
+		C19_SPEC_BEGIN(0);
+		sv4_signature(&s_secret, &s_date, &s_datetime, &s_region, &s_service, &s_creq, spec_sig);
 		C19_SPEC_END();
 		__CPROVER_assert(memcmp(sigbuf, spec_sig, 65) == 0, "SigV4: the signature is the hex of HMAC(kSigning, StringToSign)");
 	}
@@ -62,5 +69,4 @@ h_sign_chain(void)
 	VCOVER(rc == 0 && strlen(creq) == C19_CREQMAX && strlen(datetime) == 16);
 	VCOVER(rc == 0 && strlen(creq) == 0 && strlen(date) == 0 && strlen(datetime) == 0);
 	VCOVER(rc == -1);
-	free(secret_o); free(date_o); free(datetime_o); free(region_o); free(service_o); free(creq_o);
 }
